@@ -64,6 +64,12 @@ def feval(t, atom):
             return _BIN[t[1]](l, r)
         except Exception:
             return UNKNOWN
+    if k == 'call' and t[1][0] == 'attr' and t[1][2] == 'get' and 1 <= len(t[2]) <= 2 and not t[3]:
+        base = feval(t[1][1], atom)
+        args = [feval(a, atom) for a in t[2]]
+        if base is UNKNOWN or not isinstance(base, dict) or any(a is UNKNOWN for a in args):
+            return UNKNOWN
+        return base.get(*args)
     if k == 'call':
         fn = t[1]
         if fn[0] == 'g' and fn[1] in ('builtins.int', 'builtins.bool', 'builtins.len', 'builtins.abs',
@@ -128,6 +134,27 @@ def feval(t, atom):
         if any(v is UNKNOWN for v in vals):
             return UNKNOWN
         return tuple(vals) if k == 'tuple' else list(vals)
+    if k == 'dict':
+        out = {}
+        for kv in t[1:]:
+            if not (isinstance(kv, tuple) and len(kv) == 2):
+                return UNKNOWN
+            a, b = feval(kv[0], atom), feval(kv[1], atom)
+            if a is UNKNOWN or b is UNKNOWN:
+                return UNKNOWN
+            try:
+                out[a] = b
+            except TypeError:
+                return UNKNOWN
+        return out
+    if k == 'sub':
+        base, idx = feval(t[1], atom), feval(t[2], atom)
+        if base is UNKNOWN or idx is UNKNOWN or not isinstance(base, (dict, tuple, list, str)):
+            return UNKNOWN
+        try:
+            return base[idx]
+        except Exception:
+            return UNKNOWN          # a KeyError / IndexError path is not a value
     return UNKNOWN
 
 
